@@ -475,8 +475,13 @@ class FuzzyTerm(ExpandingTerm):
                 ^ hash(self.constantscore))
 
     def _btexts(self, ixreader):
-        return ixreader.terms_within(self.fieldname, self.text, self.maxdist,
-                                     prefix=self.prefixlength)
+        # terms_within() yields decoded words; the other multi-term queries
+        # (and MultiTerm.simplify/expanded_terms) work with term bytes
+        to_bytes = ixreader.schema[self.fieldname].to_bytes
+        for word in ixreader.terms_within(self.fieldname, self.text,
+                                          self.maxdist,
+                                          prefix=self.prefixlength):
+            yield to_bytes(word)
 
     def replace(self, fieldname, oldtext, newtext):
         q = copy.copy(self)
